@@ -150,6 +150,8 @@ class guard:
             return False
         import traceback
         where = traceback.extract_tb(tb)[-1]
+        if issubclass(et, (NameError, ImportError, SyntaxError)) and '/harness/' in where.filename:
+            return False        # a mistake in this harness, not behaviour of the library: crash (CHECK-BROKEN), never a VIOLATION
         self.res.violate(f'the library raises {et.__name__} while evaluating {self.label}', self.inp if self.inp is not None else dict(self.site),
                          f'{et.__name__}: {ev}'[:300], 'a value', dict(self.site, op='raises:' + self.label, error=et.__name__,
                                                                      at=f'{where.filename.split("/")[-1]}:{where.name}'))
